@@ -1,4 +1,185 @@
-import ZbossModel.Codec
+import ZbossModel.Proofs.Codec
+import ZbossModel.Generated.Commands
+/-! # C04 - every typed command survives encode -> wire -> decode unchanged
+
+`View` = what the bytes depend on (header, per wire field: wire type, optional flag); `mkOk` is the
+model of `cls(**params)` succeeding, `toBytes` of `to_frame()` (command header + parameters),
+`fromPayload` of `from_frame()` on the parameter bytes. -/
 namespace Zboss.Codec
-theorem C04_placeholder : True := trivial
+open Wire
+
+/-- **layout**: the bytes are the 4-byte little-endian command header followed by the encodings of the
+    given parameters in schema order (omitted optionals contribute nothing) -/
+theorem C04_layout (v : View) (f : FView) (fs : List FView) (x : Val) (xs : Assign) :
+    toBytes v [] = toLE 4 v.header ∧
+    encParams (f :: fs) (some x :: xs) = (encW f.wt x).getD [] ++ encParams fs xs ∧
+    encParams (f :: fs) (none :: xs) = encParams fs xs := ⟨by simp [toBytes, encParams], rfl, rfl⟩
+
+/-- **refusal**: construction succeeds only if every given value is within the range of its wire type, so
+    no out-of-range encoding is ever emitted -/
+theorem C04_refusal (v : View) (a : Assign) (h : mkOk v a = true) (i : Nat) (f : FView) (x : Val)
+    (hf : v.fields[i]? = some f) (hx : a[i]? = some (some x)) : ∃ b, encW f.wt x = some b := by
+  unfold mkOk at h
+  simp only [Bool.and_eq_true, List.all_eq_true] at h
+  have hmem : (f, some x) ∈ v.fields.zip a := by
+    rw [List.mem_iff_getElem?]
+    exact ⟨i, by simp [List.getElem?_zip_eq_some, hf, hx]⟩
+  have := h.1.2 (f, some x) hmem
+  exact Option.isSome_iff_exists.mp this
+
+/-- unsigned integers (also enums and bitmaps) are accepted exactly in `0 ≤ n < 256^k` -/
+theorem C04_uint_range (k : Nat) (n : Int) : (encS (.uint k) (.num n)).isSome = true ↔ (0 ≤ n ∧ n < pow256 k) := by
+  simp only [encS]; split <;> simp_all
+
+/-- signed integers exactly in `-(256^k)/2 ≤ n < (256^k)/2` -/
+theorem C04_sint_range (k : Nat) (n : Int) :
+    (encS (.sint k) (.num n)).isSome = true ↔ (-(pow256 k / 2) ≤ n ∧ n < pow256 k / 2) := by
+  simp only [encS]; split <;> simp_all
+
+/-- a successful construction is a valid assignment in the sense of the round-trip theorem -/
+theorem assignOk_of_mkOk (fs : List FView) (a : Assign) (hf : fieldsOk fs = true) (hl : a.length = fs.length)
+    (hs : (fs.zip a).all slotOk = true) (hp : optPrefixOk fs a = true) : assignOk fs a = true := by
+  induction fs generalizing a with
+  | nil => cases a with
+    | nil => rfl
+    | cons _ _ => simp at hl
+  | cons f fs ih =>
+    cases a with
+    | nil => simp at hl
+    | cons x xs =>
+      simp only [List.zip_cons_cons, List.all_cons, Bool.and_eq_true] at hs
+      have hl' : xs.length = fs.length := by simpa using hl
+      cases x with
+      | some x =>
+        simp only [optPrefixOk, Option.isNone_some, Bool.and_false, Bool.false_eq_true, if_false] at hp
+        simp only [assignOk, Bool.and_eq_true]
+        exact ⟨by simpa [slotOk] using hs.1, ih xs (fieldsOk_tail f fs hf) hl' hs.2 hp⟩
+      | none =>
+        have hopt : f.optional = true := by simpa [slotOk] using hs.1
+        simp only [optPrefixOk, hopt, Option.isNone_none, Bool.and_self, if_true, Bool.and_eq_true] at hp
+        simp only [assignOk, hopt, Bool.true_and, Bool.and_eq_true, beq_iff_eq]
+        refine ⟨?_, hl'⟩
+        by_cases hg : f.wt.isGreedy = true
+        · have := greedy_last f fs hf hg; subst this
+          cases xs with
+          | nil => rfl
+          | cons _ _ => simp at hl'
+        · have hall := optionals_trailing f fs hf hopt (by simpa using hg)
+          rw [List.all_eq_true] at hall ⊢
+          intro w hw
+          obtain ⟨j, hj, rfl⟩ := List.getElem_of_mem hw
+          have hjf : j < fs.length := by omega
+          have hmem : (fs[j], xs[j]) ∈ fs.zip xs := by
+            rw [List.mem_iff_getElem]
+            exact ⟨j, by simp; omega, by simp⟩
+          have h1 := (List.all_eq_true.mp hp.1) _ hmem
+          have h2 := hall fs[j] (List.getElem_mem hjf)
+          simpa [h2] using h1
+
+/-- **round trip**: for every schema of the shape the host parses and every valid parameter assignment,
+    decoding the bytes produced yields the same assignment with no bytes left over - up to the one
+    ambiguity `canon` names (an omitted trailing greedy list reads back as the empty list) -/
+theorem C04_roundtrip (v : View) (hs : SchemaOK v = true) (a : Assign) (hmk : mkOk v a = true) :
+    ∃ d, fromPayload v (encParams v.fields a) = .ok d ∧ d.assign = canon v.fields a := by
+  simp only [SchemaOK, Bool.and_eq_true] at hs
+  obtain ⟨⟨hfok, hown⟩, hstat⟩ := hs
+  have hmk' := hmk
+  unfold mkOk at hmk'
+  simp only [Bool.and_eq_true, beq_iff_eq] at hmk'
+  have hslots : (v.fields.zip a).all slotOk = true := by
+    rw [List.all_eq_true] at hmk' ⊢
+    intro p hp
+    have := hmk'.1.2 p hp
+    obtain ⟨f, x⟩ := p
+    cases x <;> simpa [slotOk] using this
+  have hassign := assignOk_of_mkOk v.fields a hfok hmk'.1.1 hslots hmk'.2
+  obtain ⟨hc1, hc2⟩ := mkOk_canon v a hfok hassign
+  have hres := parse_roundtrip v
+    (by
+      intro hct
+      simp only [hct, bne_self_eq_false, Bool.false_or, Bool.and_eq_true, beq_iff_eq] at hstat
+      exact hstat.1)
+    (by
+      intro hct pre f post hfields hopt
+      simp only [hct, bne_self_eq_false, Bool.false_or, Bool.and_eq_true, beq_iff_eq] at hstat
+      have h3 := hstat.2
+      rw [hfields] at h3
+      rcases Nat.lt_or_ge pre.length 3 with hlt' | hge
+      · exfalso
+        -- f is among the first three fields, which are not optional
+        have hall : (((pre ++ f :: post).take 3).map (fun g => (g.wt, g.optional))).all (fun p => !p.2) = true := by
+          rw [h3]; decide
+        rw [List.all_eq_true] at hall
+        have hmem : (f.wt, f.optional) ∈ ((pre ++ f :: post).take 3).map (fun g => (g.wt, g.optional)) := by
+          apply List.mem_map.mpr
+          refine ⟨f, ?_, rfl⟩
+          rw [List.mem_iff_getElem]
+          refine ⟨pre.length, by simp; omega, ?_⟩
+          simp [List.getElem_take]
+        have := hall _ hmem
+        simp [hopt] at this
+      · exact hge)
+    (by
+      intro pre f post hfields hopt g hg
+      unfold optParamsOwn at hown
+      rw [List.all_eq_true] at hown
+      have hi : pre.length ∈ List.range v.fields.length := by rw [hfields]; simp
+      have := hown _ hi
+      have hget : v.fields[pre.length]? = some f := by rw [hfields]; simp
+      simp only [hget, hopt, Bool.not_true, Bool.false_or] at this
+      have htake : v.fields.take pre.length = pre := by rw [hfields]; simp
+      rw [htake, List.all_eq_true] at this
+      have := this g hg
+      simpa using this)
+    v.fields a [] [] (by simp) rfl (by simp) hfok hassign (by simpa using hc1) (by simpa using hc2)
+  obtain ⟨d, hd, hda⟩ := hres
+  exact ⟨d, hd, by simpa using hda⟩
+
+/-- the working tree's table: every response and indication schema has the shape the theorem needs -/
+theorem C04_table_ok : ((Gen.commands.map viewOf).filter (fun v => ctype v != 0)).all SchemaOK = true := by
+  decide +kernel
+
+/-- **all response / indication classes × all valid assignments** -/
+theorem C04_all_classes (v : View) (hv : v ∈ Gen.commands.map viewOf) (hdir : ctype v ≠ 0) (a : Assign)
+    (hmk : mkOk v a = true) :
+    ∃ d, fromPayload v (encParams v.fields a) = .ok d ∧ d.assign = canon v.fields a := by
+  have h := C04_table_ok
+  rw [List.all_eq_true] at h
+  have := h v (by simp only [List.mem_filter]; exact ⟨hv, by simpa using hdir⟩)
+  exact C04_roundtrip v this a hmk
+
+/-- `canon` is the identity unless the last field is an omitted optional greedy list -/
+theorem C04_canon_id (fs : List FView) (a : Assign) (h : fs.all (fun f => !(f.wt.isGreedy && f.optional)) = true)
+    (ha : assignOk fs a = true) : canon fs a = a := by
+  induction fs generalizing a with
+  | nil => cases a <;> rfl
+  | cons f fs ih =>
+    simp only [List.all_cons, Bool.and_eq_true] at h
+    cases a with
+    | nil => rfl
+    | cons x xs =>
+      cases x with
+      | some x => simp only [assignOk, Bool.and_eq_true] at ha; simp [canon, ih xs h.2 ha.2]
+      | none =>
+        simp only [assignOk, Bool.and_eq_true] at ha
+        have : f.wt.isGreedy = false := by
+          have := h.1; simp [ha.1.1] at this; exact this
+        simp [canon, this]
+
+/-- exactly one class has such a field (`ZDO.IeeeAddrReq.Rsp`) -/
+theorem C04_one_ambiguous_class :
+    ((Gen.commands.map viewOf).filter (fun v => !(v.fields.all fun f => !(f.wt.isGreedy && f.optional)))).map (·.header) =
+      [0x02020100] := by decide +kernel
+
+/-- ... and there the ambiguity is real: two different valid commands have the same bytes, so *no* decoder
+    could return the original for both -/
+theorem C04_ambiguous_encoding :
+    let fs : List FView := [⟨.sc (.uint 1), true, 0, []⟩, ⟨.greedy [.uint 2], true, 1, []⟩]
+    encParams fs [some (.sc (.num 3)), none] = encParams fs [some (.sc (.num 3)), some (.rows [])] := by decide
+
+/-! ## non-vacuity: a response with an omitted optional parameter -/
+example : let v : View := ⟨0x00010100, some 2, [⟨.sc (.uint 1), false, 0, []⟩, ⟨.sc (.uint 1), false, 1, []⟩,
+      ⟨.sc (.uint 1), false, 2, []⟩, ⟨.sc (.uint 2), true, 3, []⟩]⟩
+    SchemaOK v = true ∧ mkOk v [some (.sc (.num 7)), some (.sc (.num 0)), some (.sc (.num 0)), none] = true := by decide
+
 end Zboss.Codec
